@@ -79,6 +79,8 @@ Image(b) == LET R == Report(b) IN
         [k |-> k - 1, va |-> AddD(R.base, R.secs[k].RVA),
          fs |-> Min2(Cap(b, R.secs[k].SizeOfRawData), IF FitsNat(R.secs[k].VirtualSize) THEN ToNat(R.secs[k].VirtualSize) ELSE 0),
          mem |-> SecMem(b, R.secs[k])]])
+\* the named deviation of the unchanged tree: the tail beyond SizeOfRawData padded with spaces instead of zeros
+AsIsImage(b) == LET I == Image(b) IN Tup([k \in 1..Len(I) |-> Tup([i \in 1..Len(I[k].mem) |-> IF i <= I[k].fs THEN I[k].mem[i] ELSE 32])])
 AtAddr(b, a, n) ==              \* the bytes the file places at absolute address a (8-byte digits), at most n
   LET I == Image(b)  S == {k \in DOMAIN I : InD(a, I[k].va, Digits(Len(I[k].mem), 8))} IN
   IF S = {} THEN <<>> ELSE LET k == CHOOSE k \in S : TRUE  o == ToNat(SubD(a, I[k].va))
